@@ -736,8 +736,12 @@ class STRINGI(StringDataType):
             data = USINT.encode(count)
 
             for (string, str_type, lang, char_set) in strings:
+                if str_type.code not in cls.STRING_TYPES:
+                    raise DataError(f"{str_type!r} is not a string type of an international string")
                 _str_type = bytes([str_type.code])
                 _lang = bytes(lang, "ascii")
+                if len(_lang) != 3:
+                    raise DataError("the language of an international string is a three-letter code")
                 _char_set = UINT.encode(char_set)
                 _string = str_type.encode(string)
 
